@@ -18,6 +18,7 @@ EXPLANATION = (
     "same base encoder composed with UTF-8 decode/encode with `default` passed through; the json_default given "
     "to to_file/FileDestination is the one used at every dump.  JSON validity, escaping and the rich-type "
     "encodings are orjson's / json_default's value-level behaviour and are NOT decided."
+    '  The text/bytes probe may be skipped only through an isinstance test of an io base class that determines what write() takes (TextIOBase: str; RawIOBase / BufferedIOBase: bytes).'
 )
 RULE = ("obligation = rule instance bound to a call site / branch arm / definition in FileDestination, to_file "
         "and json.py; non-trivial = CFG paths or definitions examined")
